@@ -36,12 +36,18 @@ def text_default(evs, clauses):
     return "case origin=%s mode=%s differ=%s clauses=%s" % (b.get("origin"), b.get("mode"), b.get("differ"), sorted(clauses))
 
 
+def model_disagreements(tr):
+    """cases in which an algorithm-layer model (clauses MODEL.*) and the real code disagree"""
+    return [f for f in tr["failed"] if any(c.startswith("MODEL.") for c in f["clauses"])]
+
+
 def run_family(run, pid, family, prefixes, extra=None, sig=None, text=None, selftests=(), module="SyncTrace",
-               drive_timeout=1800, assumptions=None, mc=None, level="model_checking", post=None, name=None, witness=False, also=()):
+               drive_timeout=1800, assumptions=None, mc=None, level="model_checking", post=None, name=None, witness=False, also=(), env=None,
+               more=None):
     run.build()
     if mc:
         mc(run)
-    trace, st = run.drive(family, name=name, extra=extra, timeout=drive_timeout)
+    trace, st = run.drive(family, name=name, extra=extra, timeout=drive_timeout, env=env)
     tr_all = run.tlc_trace(module, trace)
     hf = harness_failures(tr_all)
     if hf:
@@ -61,6 +67,16 @@ def run_family(run, pid, family, prefixes, extra=None, sig=None, text=None, self
                                             text or text_default, extra2, witness=witness)
     if post:
         post(run, tr_all, st)
+    md = model_disagreements(tr_all)
+    if more:
+        # further (family, module) pairs judged by their own trace spec: returns (fails, model disagreements)
+        f3, md3 = more(run)
+        fails += f3
+        md += md3
+    if md and not any(f.get("signature") is None for f in fails):
+        # the model and the code disagree although no clause of the property fired: neither a violation nor a pass
+        raise Inconclusive("algorithm-layer model and code disagree in %d case(s) without a violation, e.g. case %s %s"
+                           % (len(md), md[0]["case"], md[0]["clauses"]))
     return finish(run, level, fails, assumptions=assumptions or [])
 
 
